@@ -242,10 +242,11 @@ class ReplaceStringTransformation(StringValueTransformation):
                 sigma_string_plain = str(val)
                 replaced = self.re.sub(self.replacement, sigma_string_plain)
                 postprocessed_backslashes = re.sub(r"\\(?![*?])", r"\\\\", replaced)
+                # Preserve the string type (e.g. case-sensitive strings)
                 if val.contains_placeholder():  # Preserve placeholders
-                    return SigmaString(postprocessed_backslashes).insert_placeholders()
+                    return val.__class__(postprocessed_backslashes).insert_placeholders()
                 else:
-                    return SigmaString(postprocessed_backslashes)
+                    return val.__class__(postprocessed_backslashes)
 
 
 @dataclass
@@ -260,10 +261,11 @@ class MapStringTransformation(StringValueTransformation):
         self, field: str | None, val: SigmaString
     ) -> (SigmaType | list[SigmaType]) | None:
         mapped = self.mapping.get(str(val), None)
+        # Preserve the string type (e.g. case-sensitive strings)
         if isinstance(mapped, str):
-            return SigmaString(mapped)
+            return val.__class__(mapped)
         elif isinstance(mapped, list):
-            return [SigmaString(item) for item in mapped]
+            return [val.__class__(item) for item in mapped]
         else:
             return None
 
